@@ -125,7 +125,9 @@ Inductive err :=
 | EUnknownKey (cid : N) (k : pstr)    (* UnknownKeysError raised by a member *)
 | EMissing (cid : N)                  (* MissingFields raised by a member *)
 | EBareType                           (* default engine: unhashable tag value -> bare TypeError *)
-| EContainer.                         (* the enclosing container received a value of the wrong JSON type *)
+| EContainer                          (* the enclosing container received a value of the wrong JSON type *)
+| EElem.                              (* default engine: the element conversion of a container-typed Union member raised
+                                         (ValueError / TypeError of int(), as_int, ...; not a ParseError) *)
 
 Inductive res := Ok (v : lv) | Err (e : err).
 
@@ -412,6 +414,7 @@ Definition show_err (e : err) : pstr :=
   | EMissing cid => S "MissingFields:" ++ show_N cid
   | EBareType => S "TypeError"
   | EContainer => S "container"
+  | EElem => S "elem"
   end.
 
 Definition show_res (r : res) : pstr :=
